@@ -25,6 +25,11 @@ class ReprEmbeds(object):
     def __repr__(self):
         return '<ReprEmbeds %s>' % self.v
 
+    def __call__(self):
+        # the object can also serve as an endpoint (round 14): a secret resource that is routed as well
+        from clastic import Response
+        return Response('dual')
+
 
 class ReprRaises(object):
     def __init__(self, v):
@@ -199,6 +204,11 @@ def build(case):
     if case['static']:
         routes.append(('/static', StaticApplication(here)))
         routes.append(StaticFileRoute('/thisfile', os.path.abspath(__file__)))
+    # a resource value that is a callable object is *also* routed as an endpoint: one object in two roles - whatever the
+    # routes section says about the endpoint must not say what the resources section redacts (round 14)
+    for i, (name, kind) in enumerate(case['resources']):
+        if kind == 'reprobj' and name in tokens:
+            routes.append(('/zq-dual-%d' % i, resources[name]))
     if case['subapp']:
         sub_res = {'sub_secret': 'SUBTOKzq9-sub-secret-value', 'sub_plain': 'sub plain value'} if case['subapp'] == 'with-resources' else {}
         routes.append(('/sub', Application([('/x', func), ('/y/<z>', lambda z: Response(z))], resources=sub_res)))
@@ -368,10 +378,22 @@ def body(case, ctx):
 
 def shards(tier, seed):
     n = 60 if tier == 'quick' else 2000
-    return [{'n': n} for _ in range(16)]
+    return [{'n': n} for _ in range(16)] + [{'part': 'dual'}]
+
+
+def dual_cases():
+    """complete: every secret name x mount x depth - a secret and a plain resource whose values are callable objects with a
+    telling repr, both routed as endpoints as well"""
+    return [{'resources': [[name, 'reprobj'], ['db', 'reprobj'], ['motd', 'str']], 'endpoints': ['callable', 'func'], 'static': False,
+             'subapp': None, 'mws': [], 'mount': mount, 'depth': depth, 'debug': False}
+            for name in NAMES_SECRET for mount in ('/meta', '/', '/a/b/meta') for depth in (0, 2)]
 
 
 def run_shard(spec, ctx):
+    if spec.get('part') == 'dual':
+        ctx.exhaustive = True
+        ctx.loop(dual_cases(), body, kind='host', max_sigs=6)
+        return
     ctx.hyp(strategy(), body, spec['n'], kind='host')
 
 
